@@ -70,25 +70,33 @@ def evaluate_inprocess(spec):
         r = runner.run_inproc(scenario.argv_for(spec, inp, kl, out), reset=reset)
         return r, _sha(out)
     sig, detail = None, ""
-    r0, d0 = run(inpath, klpath, True)
-    if r0.exc or r0.code:
-        sig, detail = "harness: first run failed " + str(r0.exc_sig), (r0.exc or "")[-300:]
-    else:
-        seq = [("A again", inpath, klpath), ("B", inb, klb), ("A after B", inpath, klpath)]
-        for name, inp, kl in seq:
+    # references: what a fresh process exports for A and for B
+    ref = {}
+    for nm, inp, kl in (("A", inpath, klpath), ("B", inb, klb)):
+        if os.path.exists(out):
+            os.unlink(out)
+        r = runner.run_subprocess(scenario.argv_for(spec, inp, kl, out), hashseed="0")
+        if r.code != 0 or r.exc:
+            sig, detail = f"subprocess run failed: {r.exc_sig or r.code}", (r.stderr or "")[-300:]
+            break
+        ref[nm] = _sha(out)
+    if sig is None:
+        seq = [("A", inpath, klpath, "A"), ("A again", inpath, klpath, "A"), ("B after A", inb, klb, "B"), ("A after B", inpath, klpath, "A"),
+               ("B again", inb, klb, "B")]
+        for name, inp, kl, which in seq:
             r, d = run(inp, kl, False)
             if r.exc or r.code:
                 sig, detail = f"in-process repetition: run '{name}' fails ({r.exc_sig or r.code})", (r.exc or "")[-300:]
                 break
-            if name != "B" and d != d0:
+            if d != ref[which]:
                 n0 = len(open(out, "rb").read())
-                sig, detail = f"in-process repetition: output of run '{name}' differs from the first run of A", f"{n0} bytes"
+                sig, detail = f"in-process repetition: output of run '{name}' differs from what a fresh process exports", f"{n0} bytes"
                 break
     runner.reset_state()
     for p in (inpath, klpath, inb, klb, out):
         if p and os.path.exists(p):
             os.unlink(p)
-    return _result(spec, b, sig, detail, 4, "inprocess")
+    return _result(spec, b, sig, detail, 7, "inprocess")
 
 
 def _result(spec, b, sig, detail, evals, mode):
@@ -136,14 +144,15 @@ def stages(tier):
     quick = tier == "quick"
     return [
         Stage("fresh-processes", evaluate_subprocess, strategy=lambda t: spec_strategy(), examples=64 if quick else 2000, shrink=False),
-        Stage("in-process-repetition", evaluate_inprocess, strategy=lambda t: spec_strategy(), examples=300 if quick else 6000),
+        Stage("in-process-repetition", evaluate_inprocess, strategy=lambda t: spec_strategy(), examples=128 if quick else 4000),
     ]
 
 
 RULE = ("scenarios of 1-3 TLS/QUIC connections (QUIC with several CIDs of different lengths, incl. NEW_CONNECTION_ID CIDs that extend or are a "
         "prefix of a CID in use) are exported (a) by 4 fresh `python -m tlexport.main` processes with PYTHONHASHSEED 0 / 1 / two drawn values, three "
-        "working directories and perturbed TZ/LANG/COLUMNS/HOME/LC_ALL, (b) in one process: A, A again, B, A with no reset between the runs; oracle: "
-        "sha256 of the output file identical for the same (capture, secrets, options).  Non-trivial: >= 2 sessions or >= 3 CIDs; evaluations count "
+        "working directories and perturbed TZ/LANG/COLUMNS/HOME/LC_ALL, (b) in one process: A, A again, B, A, B with no reset between the runs (B = another capture with another key log of the same "
+        "size), each compared with what a fresh process exports for the same input; oracle: sha256 of the output file identical for the same "
+        "(capture, secrets, options).  Non-trivial: >= 2 sessions or >= 3 CIDs; evaluations count "
         "TLExport runs")
 ASSUMPTIONS = ["the capture and key-log files are byte-identical between the runs (same paths)"]
 
